@@ -303,10 +303,14 @@ def gen_value(r, typ, closer=None):
                 v1, v2 = r.choice(WORDS), r.choice(WORDS)
                 items.append('%s={%s,%s}' % (k, v1, v2))
                 exp[k] = v1 + ',' + v2
-            else:
+            elif q < 0.9:
                 items.append(k)
                 exp[k] = True
-        return (',' + r.choice(['', ' '])).join(items), ['dict', exp], 'dict'
+            else:
+                # "key=" with nothing after the sign: the empty value, not a flag
+                items.append(k + r.choice(['=', '=', '={}']))
+                exp[k] = ''
+        return (',' + r.choice(['', ' '])).join(items), ['dict', exp], 'dict' + ('/empty-value' if '' in exp.values() else '')
     if typ == 'nox':
         s = r.choice(['\\zqfoo Wa', 'Wa{Wb}', '\\zqfoo{\\zqbar Wc}Wd', 'Wa Wb'])
         return s, ['source', re.sub(r'\s', '', s)], 'nox'
